@@ -210,3 +210,130 @@ def tagged_stages(draw, min_stages=1, max_stages=4, keys=MERGE_KEYS, leaves=None
     leaves = leaves or scalar_node(SIMPLE_SCALARS)
     docs = draw(stage_sequence(leaves, keys, min_stages=min_stages, max_stages=max_stages, max_leaves=max_leaves, neg=neg))
     return [draw(decorate_merge(d, **kw)) for d in docs]
+
+
+# ------------------------------------------------------------------------------------------ full tag vocabulary (C18, C19)
+
+def _md_flags(draw, allow_md=True, prio=True, delete=True, density=3):
+    fl = {}
+    if draw(st.integers(0, density)) != 0:
+        return fl
+    if prio and draw(st.booleans()):
+        fl['prio'] = draw(st.sampled_from([1, -1]))
+    if delete and draw(st.integers(0, 2)) == 0:
+        fl['del'] = draw(st.booleans())
+    if draw(st.integers(0, 3)) == 0:
+        fl['new'] = draw(st.booleans())
+    if draw(st.integers(0, 3)) == 0:
+        fl['unsafe'] = True
+    if allow_md and draw(st.integers(0, 2)) == 0:
+        fl['md'] = {draw(MD_KEYS): draw(MD_VALUES)}
+    if fl:
+        fl['mdstyle'] = draw(st.sampled_from(['short', 'braces', 'hex']))
+    return fl
+
+
+@st.composite
+def special_leaf(draw, ctr, files=('inc_a.yaml', 'inc_b.yaml'), allow_structural=True):
+    """A dynamic / structural node of a random kind (AST)."""
+    kinds = ['xref', 'ref', 'eval', 'evalml', 'fstr', 'fstr_implicit', 'import', 'required', 'null', 'path', 'pathref', 'pathabs',
+             'call', 'bind', 'callsimple']
+    if allow_structural:
+        kinds += ['clear', 'prev', 'include', 'includelist', 'rec', 'append', 'extend']
+    k = draw(st.sampled_from(kinds))
+    ctr[0] += 1
+    n = ctr[0]
+    fl = _md_flags(draw)
+    if k == 'xref':
+        node = tdoc.raw(draw(st.sampled_from(['a', 'a.b', 'x[0]', 'c.d[1].e'])), '!xref')
+    elif k == 'ref':
+        node = tdoc.raw(draw(st.sampled_from(['a', 'b.c'])), '!ref')
+    elif k == 'eval':
+        node = tdoc.raw(draw(st.sampled_from(['1 + 1', 'len("abc")', "'q' * 2", 'a'])), '!eval', q=draw(st.sampled_from(['dq', 'single', 'plain'])))
+    elif k == 'evalml':
+        node = tdoc.raw(f'v = {n}\ndef f(x):\n    return x + v\nf(1)', '!eval', q='block')
+    elif k == 'fstr':
+        node = tdoc.raw('f"v{1 + 1}"', '!fstr', q='verbatim')
+        fl = {}
+    elif k == 'fstr_implicit':
+        node = {'t': 'raw', 'text': "f'w{2 * 2}'", 'q': 'verbatim'}
+        fl = {}
+    elif k == 'import':
+        node = tdoc.raw(draw(st.sampled_from(['os.path', 'math.pi', 'vfrec.ident'])), '!import')
+        fl = {}
+    elif k == 'required':
+        node = {'t': 'empty', 'tag': '!required'}
+    elif k == 'null':
+        node = {'t': 'empty', 'tag': '!null'}
+    elif k == 'clear':
+        node = {'t': 'empty', 'tag': '!clear'}
+    elif k == 'prev':
+        node = tdoc.raw(draw(st.sampled_from(['a', 'b.c'])), '!prev')
+        fl = {}
+    elif k == 'include':
+        node = tdoc.raw(draw(st.sampled_from(files)), '!include')
+        fl = {}
+    elif k == 'includelist':
+        node = tdoc.sq([tdoc.sc(f) for f in files], flow=True, tag='!include')
+        fl = {}
+    elif k == 'rec':
+        node = tdoc.raw(draw(st.sampled_from(files)), '!rec')
+        fl = {}
+    elif k == 'path':
+        node = tdoc.sq([tdoc.sc('a'), tdoc.sc('b')], flow=True, tag='!path')
+        fl = {}
+    elif k == 'pathref':
+        node = tdoc.sq([tdoc.sc('x')], flow=True, tag='!path:' + draw(st.sampled_from(['cwd', 'file', 'parent', 'parent(1)'])))
+    elif k == 'pathabs':
+        node = tdoc.sq([tdoc.sc('y')], flow=True, tag='!path:abs(/opt/data)')
+        fl = {}
+    elif k in ('call', 'bind'):
+        nargs = draw(st.integers(0, 2))
+        items = []
+        for key in draw(st.lists(st.sampled_from(['x', 'y', 0, 1]), min_size=nargs, max_size=nargs, unique=True)):
+            v = draw(st.one_of(st.integers(0, 9).map(tdoc.sc), st.just(tdoc.raw('a', '!xref')), st.just(tdoc.sq([tdoc.sc(1)], flow=True))))
+            items.append([key, v])
+        node = tdoc.mp(items, flow=True, tag=f'!{k}:vfrec.call_{n}')
+        fl.pop('del', None) if False else None
+    elif k == 'callsimple':
+        node = tdoc.raw(f'vfrec.call_{n}', draw(st.sampled_from(['!call', '!bind'])))
+        fl = {}
+    elif k == 'append':
+        node = tdoc.sq([tdoc.sc(draw(st.integers(0, 9))) for _ in range(draw(st.integers(0, 2)))], flow=True, tag='!append')
+        fl = {}
+    else:
+        node = tdoc.sq([tdoc.sc(draw(st.integers(0, 9))) for _ in range(draw(st.integers(0, 2)))], flow=True, tag='!extend')
+    node.update(fl)
+    return node
+
+
+@st.composite
+def full_value(draw, ctr, depth=0, allow_structural=True, scalars=None):
+    c = draw(st.integers(0, 9))
+    if c <= 2 and depth < 3:
+        n = draw(st.integers(0, 3))
+        keys = draw(st.lists(MERGE_KEYS_NONEG, min_size=n, max_size=n, unique=True))
+        node = tdoc.mp([(k, draw(full_value(ctr, depth + 1, allow_structural, scalars))) for k in keys], flow=draw(st.booleans()))
+        node.update(_md_flags(draw))
+        return node
+    if c <= 4 and depth < 3:
+        node = tdoc.sq([draw(full_value(ctr, depth + 1, allow_structural, scalars)) for _ in range(draw(st.integers(0, 3)))], flow=draw(st.booleans()))
+        node.update(_md_flags(draw))
+        return node
+    if c <= 6:
+        return draw(special_leaf(ctr, allow_structural=allow_structural))
+    node = tdoc.sc(draw(scalars or SIMPLE_SCALARS), q=draw(QUOTES))
+    if node['v'] is None and draw(st.booleans()):
+        node = {'t': 'empty'}
+    node.update(_md_flags(draw))
+    return node
+
+
+@st.composite
+def full_doc(draw, allow_structural=True, scalars=None, min_keys=1):
+    ctr = [0]
+    n = draw(st.integers(min_keys, 4))
+    keys = draw(st.lists(MERGE_KEYS_NONEG.filter(lambda k: isinstance(k, str)), min_size=n, max_size=n, unique=True))
+    root = tdoc.mp([(k, draw(full_value(ctr, 1, allow_structural, scalars))) for k in keys])
+    root.update(_md_flags(draw, density=5))
+    return root
